@@ -85,6 +85,8 @@ type VM struct {
 	pathNotes map[string]string
 	Extra     map[string]interface{} // per-check hooks (stubs, callee replacement)
 	hasAbort  bool
+	RecordStubs map[string]bool    // functions replaced by "record the arguments, return zero values"
+	stubLog     map[string][]Value // per path
 	regions   map[string]*smt.Term
 
 	intrinsics map[string]Intrinsic
@@ -541,6 +543,29 @@ func (vm *VM) intrinsicFor(fn *ssa.Function) Intrinsic {
 func (vm *VM) callFunc(fn *ssa.Function, env []Value, args []Value) Value {
 	if in := vm.intrinsicFor(fn); in != nil {
 		return in(vm, nil, args)
+	}
+	if vm.RecordStubs[fn.String()] {
+		if vm.stubLog == nil {
+			vm.stubLog = map[string][]Value{}
+		}
+		rec := make(Slice, len(args))
+		for i, a := range args {
+			pt := fn.Params[i].Type()
+			if _, isI := pt.Underlying().(*types.Interface); isI {
+				rec[i] = copyVal(a)
+			} else {
+				rec[i] = Iface{T: pt, V: copyVal(a)}
+			}
+		}
+		vm.stubLog[fn.String()] = append(vm.stubLog[fn.String()], rec)
+		res := fn.Signature.Results()
+		switch res.Len() {
+		case 0:
+			return nil
+		case 1:
+			return vm.zero(res.At(0).Type())
+		}
+		return vm.zero(res)
 	}
 	if fn.Blocks == nil {
 		vmErr("call of function without body: %s", fn.String())
